@@ -22,6 +22,7 @@ package sim
 
 import (
 	"fmt"
+	"sync/atomic"
 	"time"
 
 	"github.com/glowlabs-org/gca-backend/glow"
@@ -36,7 +37,7 @@ func init() {
 		Real:           []string{"glow timeslot conversions and the production CurrentTimeslot", "production-constant server: rotation loop (hourly check), impact loop, weekly WattTime refresh, report handler"},
 		Stub:           []string{"system clock (bubble clock, 2000-01-01 onwards, forward only)", "WattTime service (harness responder behind http.DefaultTransport)", "socket listeners"},
 		Assumptions:    []string{"the pure conversion functions are exercised at the instants the simulated clock visits plus the listed boundaries (input enumeration, not simulation)", "the acceptance comparisons at the ends of the 32 bit range (clock below 432, clock and timeslots near 2^31 and 2^32) are exercised by the test-flavour supplement (settable protocol clock), which runs for a third of the budget; the production flavour cannot move its clock there"},
-		RequiredProbes: []string{"c20.walk.far-end", "c20.walk.pre-genesis", "c20.cadence.rotated", "c20.cadence.delayed-rotation", "c20.cadence.watttime-fault", "c20.cadence.edge-report", "c20.cadence.beyond-half-width", "c20.cadence.watttime-outage"},
+		RequiredProbes: []string{"c20.walk.far-end", "c20.walk.pre-genesis", "c20.cadence.rotated", "c20.cadence.delayed-rotation", "c20.cadence.watttime-fault", "c20.cadence.edge-report", "c20.cadence.beyond-half-width", "c20.cadence.watttime-outage", "c20.cadence.edge-report-after-restart"},
 	})
 }
 
@@ -166,23 +167,27 @@ func c20Cadence(m *Sim) {
 	MaxTaskWait = 1 << 62
 	// Start somewhere after genesis, not aligned with anything.
 	sleepUntil(genesisUnix + int64(m.C.Int("start-s", 400000)))
-	faults := 0
+	var faults atomic.Int64
 	// WattTime outages: for hours or days every request fails (login
 	// included). The rotation cadence must not depend on that service.
+	// The responder is reached by several background jobs, at times at the same
+	// simulated instant: its decisions are keyed (see Keyed), not drawn.
 	var outageUntil time.Time
+	kd := NewKeyed(m.C, "watttime-key")
 	w.WattTime = func(path string) (int, time.Duration) {
+		at := time.Since(m.Start).Nanoseconds()
 		if time.Now().Before(outageUntil) {
-			faults++
+			faults.Add(1)
 			m.Probe("c20.cadence.watttime-fault")
-			return 1 + m.C.Int("outage-kind", 2), 0
+			return 1 + kd.Int(2, "outage-kind", path, at), 0
 		}
-		k := m.C.Weighted("watttime", 12, 1, 1)
+		k := kd.Weighted([]int{12, 1, 1}, "watttime", path, at)
 		d := time.Duration(0)
-		if m.C.Chance("slow", 1, 6) {
-			d = time.Duration(1+m.C.Int("slow-s", 20)) * time.Second
+		if kd.Chance(1, 6, "slow", path, at) {
+			d = time.Duration(1+kd.Int(20, "slow-s", path, at)) * time.Second
 		}
 		if k != 0 || d > 0 {
-			faults++
+			faults.Add(1)
 			m.Probe("c20.cadence.watttime-fault")
 		}
 		return k, d
@@ -204,6 +209,26 @@ func c20Cadence(m *Sim) {
 	delayed := false
 	maxLag := int64(0)
 	restarted := false
+	edgeReports := func(now uint32) {
+		for _, d := range devs {
+			for _, slot := range []int64{int64(now) + 432, int64(now) - 432} {
+				if slot < 0 {
+					continue
+				}
+				b := SignedReport(d.Key, d.ID, uint32(slot), 500).Encode()
+				r, ok, why := n.Model.Acceptable(b, now)
+				_ = r
+				// Acceptable by its timeslot (within 432 of now) but outside
+				// the stored window: the cadence failed to rotate in time.
+				diff := slot - int64(now)
+				if !ok && why == "outside-window" && diff >= -432 && diff <= 432 && slot >= int64(n.Model.Offset) {
+					m.Fail("C20.cadence-run", "window", "a report for timeslot %d is within 432 slots of now=%d but past the stored window [%d,%d): the rotation cadence did not rotate in time", slot, now, n.Model.Offset, n.Model.Offset+4032)
+				}
+				n.DoDatagram(b)
+				m.Probe("c20.cadence.edge-report")
+			}
+		}
+	}
 	for time.Now().Before(endAt) {
 		// Once per run the server may be down for days and come back late:
 		// the documented start-up rule (rotate while now-offset >= 4000) plus
@@ -222,8 +247,20 @@ func c20Cadence(m *Sim) {
 			if lag := int64(Slot()) - int64(n.Snap().Offset); lag >= 4000 {
 				m.Fail("C20.cadence-run", "startup", "after a late restart the clock is %d slots past the window offset: start-up catch-up must bring it below 4000", lag)
 			}
-			w.Advance(period + 10*time.Minute)
+			// The first check runs at once; ten minutes cover its WattTime fetch
+			// (a handful of requests, each answered within 20 s here). From then
+			// on every acceptable report must find its slot in the window - not
+			// only one check period later.
+			w.Advance(10 * time.Minute)
 			off := n.Snap().Offset
+			for n.Model.Offset < off {
+				n.Model.Rotate()
+				rotations++
+			}
+			edgeReports(Slot())
+			m.Probe("c20.cadence.edge-report-after-restart")
+			w.Advance(period)
+			off = n.Snap().Offset
 			for n.Model.Offset < off {
 				n.Model.Rotate()
 				rotations++
@@ -259,24 +296,7 @@ func c20Cadence(m *Sim) {
 		if lag := int64(now) - int64(off); lag > maxLag {
 			maxLag = lag
 		}
-		for _, d := range devs {
-			for _, slot := range []int64{int64(now) + 432, int64(now) - 432} {
-				if slot < 0 {
-					continue
-				}
-				b := SignedReport(d.Key, d.ID, uint32(slot), 500).Encode()
-				r, ok, why := n.Model.Acceptable(b, now)
-				_ = r
-				// Acceptable by its timeslot (within 432 of now) but outside
-				// the stored window: the cadence failed to rotate in time.
-				diff := slot - int64(now)
-				if !ok && why == "outside-window" && diff >= -432 && diff <= 432 && slot >= int64(n.Model.Offset) {
-					m.Fail("C20.cadence-run", "window", "a report for timeslot %d is within 432 slots of now=%d but past the stored window [%d,%d): the rotation cadence did not rotate in time", slot, now, n.Model.Offset, n.Model.Offset+4032)
-				}
-				n.DoDatagram(b)
-				m.Probe("c20.cadence.edge-report")
-			}
-		}
+		edgeReports(now)
 		// Beyond the half-width nothing is acceptable: were the server's own
 		// range wider than 432, the inequality above would be about another
 		// number. A report just outside must leave no record.
@@ -317,5 +337,5 @@ func c20Cadence(m *Sim) {
 	if rotations > 0 && delayed {
 		m.Probe("nontrivial")
 	}
-	m.Sig = append(m.Sig, fmt.Sprintf("cad:w%d/r%d/lag%d/f%d", weeks, rotations, maxLag/100, faults/50))
+	m.Sig = append(m.Sig, fmt.Sprintf("cad:w%d/r%d/lag%d/f%d", weeks, rotations, maxLag/100, faults.Load()/50))
 }
